@@ -4,7 +4,7 @@ import itertools
 from ..core.runner import Partial
 
 LEVEL = "exploration"
-RULE = ("all mode strings of length <= M over {x, class, a, b, index, ctx.ka, ctx.kb} (ctx.<k> only after the item recording k) "
+RULE = ("all mode strings of length <= M over {x, class, a, b, index, ctx.tca, ctx.kb} (ctx.<k> only after the item recording k) "
         "x return_ctx x wrapper stacks (root, identity wrappers, fused-operation wrappers with groups of 2 and 3 members, two "
         "disjoint groups, nested fused wrappers, TorchWrapper, shipped KDMixWrapper / XTransformWrapper / SemsegTransformWrapper) "
         "x dataset sizes x every int index in [-n, n); slices / index lists / iter / len against list semantics; all access "
@@ -40,7 +40,7 @@ def lib():
                 ctx[f"seen_{item}"] = idx
                 ctx[f"parity{idx % 2}"] = idx  # different samples record different key sets (stale entries visible)
                 if item == "a":
-                    ctx["ka"] = f"ka{idx}"
+                    ctx["tca"] = f"tca{idx}"
                 if item == "b":
                     ctx["kb"] = f"kb{idx}"
             return f"{item}{idx}"
@@ -129,12 +129,12 @@ def stack_table():
 
 
 def modes(maxlen, items):
-    alpha = list(items) + ["index"] + (["ctx.ka"] if "a" in items else []) + (["ctx.kb"] if "b" in items else [])
+    alpha = list(items) + ["index"] + (["ctx.tca"] if "a" in items else []) + (["ctx.kb"] if "b" in items else [])
     for L_ in range(1, maxlen + 1):
         for seq in itertools.product(alpha, repeat=L_):
             ok = True
             for p, it in enumerate(seq):
-                if it == "ctx.ka" and "a" not in seq[:p]:
+                if it == "ctx.tca" and "a" not in seq[:p]:
                     ok = False
                 if it == "ctx.kb" and "b" not in seq[:p]:
                     ok = False
@@ -172,7 +172,7 @@ def expected_ctx(seq, i):
         ctx[f"seen_{it}"] = i
         ctx[f"parity{i % 2}"] = i
         if it == "a":
-            ctx["ka"] = f"ka{i}"
+            ctx["tca"] = f"tca{i}"
         if it == "b":
             ctx["kb"] = f"kb{i}"
     return ctx
